@@ -214,7 +214,41 @@ func isoCase(id int) O {
 		}
 		swg.Wait()
 	}
-	return O{"id": id, "kind": "iso", "propsMode": propsMode, "bsMode": bsMode, "polluters": seq, "solo": solo, "after": after, "concurrent": conc,
+	// ... and the extended interpreter's _.match built-in from several executions at once: each gets the answer it gets alone
+	matchSame := true
+	{
+		inx := ecmascript.NewInterpreter()
+		inx.Extended = true
+		src := `var n = _.bindings.n; var r = _.match({"a": "?x", "b": [1], "c": {"d": "?z"}}, {"a": n, "b": [1, n + 2], "c": {"d": "v" + n, "e": [n, n, n]}}, {}); return {len: r.length, x: r.length ? r[0]["?x"] : null, z: r.length ? r[0]["?z"] : null};`
+		if cm, err := inx.Compile(ctx, src); err == nil {
+			alone := map[int]string{}
+			run := func(n int) string {
+				r := runExec(inx, ctx, match.Bindings{"n": float64(n)}, nil, src, cm)
+				js, _ := json.Marshal(r.Bs)
+				return r.Err + string(js)
+			}
+			for n := 0; n < 6; n++ {
+				alone[n] = run(n)
+			}
+			var mwg sync.WaitGroup
+			var mmu sync.Mutex
+			for k := 0; k < 6; k++ {
+				mwg.Add(1)
+				go func(n int) {
+					defer mwg.Done()
+					for j := 0; j < 25; j++ {
+						if got := run(n); got != alone[n] {
+							mmu.Lock()
+							matchSame = false
+							mmu.Unlock()
+						}
+					}
+				}(k)
+			}
+			mwg.Wait()
+		}
+	}
+	return O{"id": id, "kind": "iso", "propsMode": propsMode, "bsMode": bsMode, "matchSame": matchSame, "polluters": seq, "solo": solo, "after": after, "concurrent": conc,
 		"bsBefore": bsBefore, "bsAfter": bsAfter, "propsBefore": propsBefore, "propsAfter": propsAfter,
 		"raw": enc.Canon(O{"polluters": names})}
 }
